@@ -115,48 +115,49 @@ class SelectorsEngine(VectorEngine):
             toks += self.gen_list(rng, lv, 0, rng.randint(1, cfg["maxlist"]))
         return toks
 
-    def gen_list(self, rng, lv, depth, n):
+    def gen_list(self, rng, lv, depth, n, allow_amp=True):
         out = []
         for i in range(n):
             if i:
                 out.append(",")
-            out += self.gen_complex(rng, lv, depth)
+            out += self.gen_complex(rng, lv, depth, allow_amp)
         return out
 
-    def gen_complex(self, rng, lv, depth):
+    def gen_complex(self, rng, lv, depth, allow_amp=True):
         cfg = self.rnd
         ncomp = rng.randint(1, cfg["maxcomps"] if depth == 0 else 2)
-        amp_at = rng.randrange(ncomp) if (lv > 1 and rng.random() < cfg["pamp"]) else -1
+        lead = lv > 1 and depth == 0 and rng.random() < 0.12
+        allow_amp = allow_amp and lv > 1 and not lead      # a selector with a leading combinator has no &
+        amp_at = rng.randrange(ncomp) if (allow_amp and rng.random() < cfg["pamp"]) else -1
         out = []
-        if lv > 1 and depth == 0 and amp_at != 0 and rng.random() < 0.15:
-            out.append(rng.choice(COMBS[1:]))          # leading combinator
+        if lead:
+            out.append(rng.choice(COMBS[1:]))
         for k in range(ncomp):
             if k:
                 out.append(rng.choice(COMBS))
-            out += self.gen_compound(rng, lv, depth, k == amp_at)
+            out += self.gen_compound(rng, lv, depth, k == amp_at, allow_amp)
         return out
 
-    def gen_compound(self, rng, lv, depth, amp):
+    def gen_compound(self, rng, lv, depth, amp, allow_amp):
         cfg = self.rnd
         out = []
         pool = list(cfg["simples"])
         if amp:
             out.append("&")
-            r = rng.random()
-            if r < 0.35:
+            if rng.random() < 0.35:
                 out.append(rng.choice(("-x", "-y")))
-            pool = [t for t in pool if t[0] not in "abcde"]
+            pool = [t for t in pool if not t[0].isalpha()]
             k = rng.randint(0, 2)
         else:
             k = rng.randint(1, 2)
         chosen = rng.sample(pool, min(k, len(pool)))
         chosen.sort(key=lambda t: 0 if t[0].isalpha() else 1)     # a type selector can only come first
-        if sum(1 for t in chosen if t[0].isalpha()) > 1:
+        while sum(1 for t in chosen if t[0].isalpha()) > 1:
             chosen = chosen[1:]
         out += chosen
         if depth < 2 and rng.random() < cfg["pfn"]:
             out.append(rng.choice(cfg["fns"]))
-            out += self.gen_list(rng, lv, depth + 1, rng.randint(1, 2))
+            out += self.gen_list(rng, lv, depth + 1, rng.randint(1, 2), allow_amp)
             out.append(")")
         return out
 
@@ -168,18 +169,32 @@ class C19(SelectorsEngine):
             "arguments), bounded-exhaustive per configuration; every nest is rendered as L1 { p1: v; L2 { p2: v; L3 { p3: v } } } and the "
             "emitted rules (selector texts in order, declaration held) are compared with Selectors!Observe. non-trivial = more than one "
             "level, list or pseudo-class; distinct = distinct token string. Flow B: seeded random nests of 2-4 levels x <=3 selectors "
-            "validated by Trace_Selectors.tla.")
+            "validated by Trace_Selectors.tla. Last clause: trees of nested rules with declarations before/between/after them "
+            "(MC_Emit_C19_e.cfg) compared with Emit!Expected (order and selector association).")
     assumptions = ["a suffix (`&-x`) on a parent whose last simple selector is an attribute or a pseudo-class with arguments is an error in Sass and not compared",
                    "several `&` in one complex selector and `&` after other simple selectors are outside the generated space",
                    "selector text is compared after whitespace normalisation (single spaces around combinators, `, ` between arguments)"]
     mc_runs = {
         "quick": [("MC_Selectors", "MC_Selectors_C19_a.cfg", {"workers": 8}), ("MC_Selectors", "MC_Selectors_C19_b.cfg", {"workers": 8}),
-                  ("MC_Selectors", "MC_Selectors_C19_c.cfg", {"workers": 8})],
+                  ("MC_Selectors", "MC_Selectors_C19_c.cfg", {"workers": 8}), ("MC_Selectors", "MC_Selectors_C19_d.cfg", {"workers": 8})],
         "thorough": [("MC_Selectors", "MC_Selectors_C19_a.cfg", {"workers": 8}), ("MC_Selectors", "MC_Selectors_C19_b.cfg", {"workers": 8}),
-                     ("MC_Selectors", "MC_Selectors_C19_c.cfg", {"workers": 8}),
+                     ("MC_Selectors", "MC_Selectors_C19_c.cfg", {"workers": 8}), ("MC_Selectors", "MC_Selectors_C19_d.cfg", {"workers": 8}),
                      ("MC_Selectors", "MC_Selectors_C19_t.cfg", {"workers": 8, "timeout": 1500})],
     }
     random_n = {"quick": 1000, "thorough": 10000}
+
+    def run(self, ctx):
+        super().run(ctx)
+        # last clause of C19 (declarations under the innermost resolved selector, in source order):
+        # trees of nested rules and declarations from MC_Emit, compared with Emit!Expected
+        from . import emit
+        e = emit.EmitEngine()
+        r = ctx.mc("MC_Emit", "MC_Emit_C19_e.cfg", workers=8)
+        vecs = list(ctx.vectors(r))
+        if not vecs:
+            from vlib import tlc
+            raise tlc.ToolError("MC_Emit/MC_Emit_C19_e.cfg produced no vectors")
+        e.flow_a(ctx, vecs, "MC_Emit_C19_e.cfg")
 
 
 class C22(SelectorsEngine):
@@ -193,8 +208,10 @@ class C22(SelectorsEngine):
     rnd = dict(levels=(1, 3), maxlist=3, maxcomps=2, simples=("a", ".b", "%p", "%q", ".c"),
                fns=(":not(", ":is(", ":where(", ":matches(", ":has("), pfn=0.45, pamp=0.3)
     mc_runs = {
-        "quick": [("MC_Selectors", "MC_Selectors_C22_a.cfg", {"workers": 8}), ("MC_Selectors", "MC_Selectors_C22_b.cfg", {"workers": 8})],
-        "thorough": [("MC_Selectors", "MC_Selectors_C22_a.cfg", {"workers": 8}), ("MC_Selectors", "MC_Selectors_C22_b.cfg", {"workers": 8}),
-                     ("MC_Selectors", "MC_Selectors_C22_t.cfg", {"workers": 8, "timeout": 1500})],
+        "quick": [("MC_Selectors", "MC_Selectors_C22_a.cfg", {"workers": 8}), ("MC_Selectors", "MC_Selectors_C22_b.cfg", {"workers": 8}),
+                  ("MC_Selectors", "MC_Selectors_C22_c.cfg", {"workers": 8})],
+        "thorough": [("MC_Selectors", "MC_Selectors_C22_c.cfg", {"workers": 8}),
+                     ("MC_Selectors", "MC_Selectors_C22_t.cfg", {"workers": 8, "timeout": 1500}),
+                     ("MC_Selectors", "MC_Selectors_C22_u.cfg", {"workers": 8, "timeout": 1500})],
     }
     random_n = {"quick": 1000, "thorough": 10000}
